@@ -330,6 +330,8 @@ type Node struct {
 	UpdateBegan map[string]time.Duration
 	handleDone   chan struct{}
 	CtxTimeout   time.Duration
+	// UpdateCtxMax > 0: update handlers answer with a context of 0..UpdateCtxMax.
+	UpdateCtxMax time.Duration
 }
 
 // AcceptResult is the outcome of ProposalResponder.Accept.
@@ -550,6 +552,13 @@ func (n *Node) handleUpdate(cur *channel.State, u client.ChannelUpdate, r *clien
 	}
 	time.Sleep(react + n.W.S.Delay(fmt.Sprintf("handler:%s:update:%s:v%d", n.Name, cname, u.State.Version), 0, 30*time.Microsecond))
 	ctx, cancel := n.Ctx()
+	if n.UpdateCtxMax > 0 {
+		// a handler that answers with a context that is about to run out: it may
+		// expire before, while or after the answer is sent
+		cancel()
+		ctx, cancel = context.WithTimeout(context.Background(), n.W.S.Delay(fmt.Sprintf("ctx:answer:%s:%s:v%d", n.Name, cname, u.State.Version), 0, n.UpdateCtxMax))
+		n.W.S.Count("fault.answer_with_nearly_expired_context", 1)
+	}
 	defer cancel()
 	var err error
 	if accept {
